@@ -306,7 +306,10 @@ class Folder:
         return res  # type: ignore[return-value]
 
     def _block(self, stmts: list[ast.stmt], env: dict[str, ast.AST], fi: FuncInfo,
-               nested: dict[str, FuncNode], depth: int) -> Any:
+               nested: dict[str, FuncNode], depth: int, cont: list[ast.stmt] | None = None) -> Any:
+        """Value returned by executing `stmts` and then `cont` (the statements that follow the enclosing block):
+        a branch that falls off its own block goes on there, not at the function's end."""
+        cont = cont or []
         for i, s in enumerate(stmts):
             if isinstance(s, (ast.Expr, ast.Pass, ast.Assert, ast.Import, ast.ImportFrom, ast.ClassDef) + _FuncTypes):
                 continue
@@ -334,19 +337,19 @@ class Folder:
             if isinstance(s, ast.If):
                 t = self.expr(s.test, env, fi, nested, depth)
                 e1, e2 = dict(env), dict(env)
-                r1 = self._block(s.body, e1, fi, nested, depth)
-                r2 = self._block(s.orelse, e2, fi, nested, depth)
-                rest = stmts[i + 1:]
-                if r1 is None and r2 is None:
+                leaves = any(isinstance(n, (ast.Return, ast.Raise)) for b in s.body + s.orelse for n in walk_no_nested(b))
+                if not leaves:
+                    # a diamond: both arms rejoin, their bindings are merged
+                    self._block(s.body, e1, fi, nested, depth)
+                    self._block(s.orelse, e2, fi, nested, depth)
                     for k in set(e1) | set(e2):
                         v1 = e1.get(k, ast.Name(id=k, ctx=ast.Load()))
                         v2 = e2.get(k, ast.Name(id=k, ctx=ast.Load()))
                         env[k] = v1 if ast.dump(v1) == ast.dump(v2) else ast.IfExp(test=copy.deepcopy(t), body=v1, orelse=v2)
                     continue
-                if r1 is None:
-                    r1 = self._block(rest, e1, fi, nested, depth)
-                if r2 is None:
-                    r2 = self._block(rest, e2, fi, nested, depth)
+                rest = stmts[i + 1:] + cont
+                r1 = self._block(s.body, e1, fi, nested, depth, rest)
+                r2 = self._block(s.orelse, e2, fi, nested, depth, rest)
                 if self.mark_raise and (r1 is RAISE) != (r2 is RAISE):
                     mark = ast.Name(id="RAISE", ctx=ast.Load())
                     other = r2 if r1 is RAISE else r1
@@ -362,12 +365,9 @@ class Folder:
                     return r1
                 return ast.IfExp(test=t, body=r1, orelse=r2)
             if isinstance(s, (ast.With,)):
-                r = self._block(s.body, env, fi, nested, depth)
-                if r is not None:
-                    return r
-                continue
+                return self._block(s.body, env, fi, nested, depth, stmts[i + 1:] + cont)
             # `for x in S: if C: return K` followed by `return not K`  ==  any / all over S
-            q = self._quantifier_loop(s, stmts[i + 1:], env, fi, nested, depth)
+            q = self._quantifier_loop(s, stmts[i + 1:] + cont, env, fi, nested, depth)
             if q is not None:
                 return q
             # loops / try / match: not folded; a return inside cannot be expressed
@@ -376,6 +376,8 @@ class Folder:
             for n in walk_no_nested(s):
                 if isinstance(n, ast.Name) and isinstance(n.ctx, (ast.Store, ast.Del)):
                     env.pop(n.id, None)
+        if cont:
+            return self._block(cont, env, fi, nested, depth)
         return None
 
 
